@@ -133,6 +133,19 @@ class simplify_chained_calls(FuncADLNodeTransformer):
 
     def __init__(self):
         self._arg_stack = argument_stack()
+        self._reserved_names = False
+
+    def visit(self, node: ast.AST):
+        # Names of the form `arg_N` already present in the query (e.g. it was simplified
+        # before, in another process) must not be handed out again by `arg_name`.
+        if not self._reserved_names:
+            self._reserved_names = True
+            global argument_var_counter
+            for n in ast.walk(node):
+                name = n.id if isinstance(n, ast.Name) else n.arg if isinstance(n, ast.arg) else ""
+                if name.startswith("arg_") and name[4:].isdigit():
+                    argument_var_counter = max(argument_var_counter, int(name[4:]) + 1)
+        return super().visit(node)
 
     def visit_Select_of_Select(self, parent: ast.Call, selection: ast.Lambda):
         r"""
